@@ -217,15 +217,25 @@ CLAIMED = {
         "by the call with b, and fails exactly when that fails, lifted to any list of fragments; (completeness, single-range path) "
         "complete_single / complete_single_bytes: the stored bytes of exactly the requested chunks in request order, each hashing to "
         "its index checksum, make dl_write_range take every byte and mark every requested chunk valid, with the server's bytes at "
-        "each extent or an explicit hash collision.  Fragmentation independence and completeness of the MULTIPART path are NOT theorems: they are evaluated on the implementation over "
-        "families of fragmentations of the same response (all 1-cut, all 2-cut in thorough, 1..7-byte pieces, sampled k-cuts), against "
-        "a reference server, with the model run on the same inputs.",
+        "each extent or an explicit hash collision; (MULTIPART path) multipart_whole: one call of multipart_extract with a whole body of "
+        "well-formed parts (any part-header text in which the pattern finds a range as long as the payload, first CRLFCRLF = end of the "
+        "part header) is, for file, marks, open chunk and running checksum, exactly the payloads handed to dl_write_range one after the "
+        "other; multipart_complete(_bytes): parts carrying the stored bytes of consecutive groups of the requested chunks make every "
+        "requested chunk valid, change no other mark, leave the server's bytes at each extent (or a collision) and nothing else touched; "
+        "multipart_frag_indep / multipart_feed_indep / multipart_complete_frags: the same body handed to multipart_extract / "
+        "zck_write_chunk_cb in ANY sequence of non-empty fragments, down to one byte per call, is accepted fragment by fragment and ends "
+        "in exactly the context of the single call (states between callbacks characterised by Reach; mp_step; dwr_cut).  What is NOT a "
+        "theorem: that glibc's regexec finds the two numbers in a part header of the RFC 7233 shape (the oracle is a parameter: PartOk is "
+        "a hypothesis) and the header callback's boundary extraction for real Content-Type lines; those, and the whole path again, are "
+        "evaluated on the implementation over families of fragmentations of the same response (all 1-cut, all 2-cut in thorough, "
+        "1..7-byte pieces, sampled k-cuts) against a reference server, with the model run on the same inputs.",
    design_ref="DESIGN.md section 7 C05",
-   note="Partial: the multipart path's frag_indep and completeness are checked, not proved (for plain single-range responses all clauses are proved on the model). Trusted: Lean kernel (axioms propext, Classical.choice, "
+   note="Partial: every clause of the property is a theorem about the model GIVEN that the regex oracle finds the range in each part header and the boundary in the Content-Type line (hypotheses PartOk / boundary known; glibc's regex semantics are not modelled) and that parts arrive in request order with non-empty payloads; empty fragments are outside the theorems (a zero-length callback mid-chunk is refused by hash_update) and covered by C17. Trusted: Lean kernel (axioms propext, Classical.choice, "
         "Quot.sound); hand-written model tied to the C by correspondence on explored inputs only; glibc regex enters as a logged oracle.",
    technique="Lean 4 proof (invariant over the six write-path fields preserved by three primitive steps, lifted generically through "
              "dl_write_range / multipart loop / callbacks by induction over fuel and fragment list; list-slice algebra for writes at "
-             "offsets) + differential correspondence with exhaustive small fragmentations"),
+             "offsets; split lemma for dl_write_range by strong induction; characterisation of the inter-callback states of the multipart "
+             "parser and a one-callback step lemma, induction over the fragment list) + differential correspondence with exhaustive small fragmentations"),
  'C17': dict(
    text="PARTIAL proof (Lean 4), for ARBITRARY header lines, body bytes, fragmentations (empty fragments too), stop/continue/clear-error "
         "schedules, regcomp outcomes on the boundary-derived patterns, and any regexec that keeps its contract (offsets inside the "
